@@ -111,7 +111,7 @@ fn cmd_check(args: &[String]) -> i32 {
         }
     }
     // generous wall budget: only to give up on a hang, never to decide a run
-    let budget = if thorough { 4 * 3600 } else { 1500 };
+    let budget = if thorough { 12 * 3600 } else { 2 * 3600 };
     let end = supervise::run_child(&child_args, budget);
     let code = match end {
         supervise::ChildEnd::Exited(c) if c != WATCHDOG_EXIT => c,
@@ -139,7 +139,8 @@ fn isolate(prop: &str, thorough: bool, inflight: &str, why: &str) -> i32 {
             a.push("--thorough".into());
         }
         let limit = hang_limit_s(thorough);
-        let end = supervise::run_child(&a, limit);
+        // same budget as inside the batch: CPU seconds of the run, wall only as a distant backstop
+        let end = supervise::run_child_cpu(&a, limit, limit * supervise::WALL_FACTOR);
         let bad = match end {
             supervise::ChildEnd::Exited(1) => Some("the run violates the property (found while isolating; not minimised because the minimiser's process crashed or hung)".to_string()),
             supervise::ChildEnd::Exited(_) => None,
@@ -176,7 +177,7 @@ fn isolate(prop: &str, thorough: bool, inflight: &str, why: &str) -> i32 {
             }
         }
     }
-    eprintln!("check {prop}: child {why} but no in-flight run reproduces it in isolation: harness error");
+    eprintln!("check {prop}: child {why} but no in-flight run reproduces it in isolation: harness error (in flight: {:?})", list);
     2
 }
 
@@ -260,7 +261,8 @@ fn cmd_child_check(args: &[String]) -> i32 {
     let root = verif_root();
     let inflight: Option<&'static supervise::Inflight> = arg_val(args, "--inflight").map(|p| &*Box::leak(Box::new(supervise::Inflight::create(&p))));
     if let Some(inf) = inflight {
-        // watchdog: wall time is only used to give up on a run that does not return
+        // watchdog: time (CPU seconds of the worker thread, wall as a distant backstop) is only used to give up
+        // on a run that does not return
         let limit = hang_limit_s(thorough);
         std::thread::spawn(move || loop {
             std::thread::sleep(std::time::Duration::from_millis(500));
